@@ -5,7 +5,7 @@ object per output line.  Names are arrays of code points.
 
   {"op":"cat","cat":CAT}                                    → the normalised catalog
   {"op":"route","cat":CAT,"parts":[NAME…]}                  → both resolvers, both routes, predictor views
-  {"op":"plan","cat":CAT,"ctes":[NAME…],"node":NODE}        → get_query_info + check_single_integration + stripped identifiers
+  {"op":"plan","cat":CAT,"ctes":[NAME…],"names":[NAME…],"node":NODE}        → get_query_info + check_single_integration + stripped identifiers
   {"op":"strip","db":NAME,"par":"n|j|s","slot":"t|g|a","node":NODE} → identifiers after prepare_integration_select
   {"op":"sem","db":NAME,"sch":[[NAME,[NAME…]]…],"sel":SEL}  → resolution of every column reference, federated and stripped/local
 
@@ -151,26 +151,37 @@ def handle (line : String) : Except String Json := do
     let c := mkCatalog (← getCat (← j.getObjVal? "cat"))
     let ctes ← getNames (← j.getObjVal? "ctes")
     let q ← getNode (← j.getObjVal? "node")
+    let names ← match j.getObjVal? "names" with
+      | .ok v => getNames v
+      | .error _ => pure []
     let items := visit .arg q
-    let info := match queryInfo c ctes items with
+    let jInfo := fun (skip : Bool) => match queryInfo skip c ctes items with
       | none => Json.null
       | some qi => Json.mkObj [("mdb", qi.mdbEntities), ("ints", jNames qi.integrations),
           ("preds", qi.predictors), ("udf", qi.userFunctions)]
-    let dec := checkSingle c ctes items
-    let decJ := checkSingleJoin c ctes items
+    let jIdents := fun (dec : Option Name) (nm : List Name) => match dec with
+      | none => Json.null
+      | some i => Json.arr ((allIdents (strip i nm .noFrom .arg q)).map jIdent).toArray
+    -- "…N": get_query_info that skips bare CTE names (fixes/C11_1.diff); "…A": alias-aware cut (fixes/C11_2.diff)
+    let dec := checkSingle false c ctes items
+    let decN := checkSingle true c ctes items
     return Json.mkObj [
-      ("items", .arr (items.map jItem).toArray), ("info", info),
-      ("single", jOptName dec), ("singleJoin", jOptName decJ),
-      ("idents", match dec with
-        | none => .null
-        | some i => .arr ((allIdents (strip i .noFrom .arg q)).map jIdent).toArray),
+      ("items", .arr (items.map jItem).toArray), ("info", jInfo false), ("infoN", jInfo true),
+      ("single", jOptName dec), ("singleN", jOptName decN),
+      ("singleJoin", jOptName (checkSingleJoin false c ctes items)),
+      ("idents", jIdents dec []), ("identsA", jIdents dec names),
+      ("identsN", jIdents decN []), ("identsNA", jIdents decN names),
       ("skipLeafOnly", skipLeafOnly q), ("allTables", .arr ((allTables .arg q).map jNames).toArray)]
   else if op == "strip" then
     let db ← getName (← j.getObjVal? "db")
     let par := getPar (← (← j.getObjVal? "par").getStr?)
     let slot := getSlot (← (← j.getObjVal? "slot").getStr?)
     let q ← getNode (← j.getObjVal? "node")
-    return Json.mkObj [("idents", .arr ((allIdents (strip db par slot q)).map jIdent).toArray)]
+    let names ← match j.getObjVal? "names" with
+      | .ok v => getNames v
+      | .error _ => pure []
+    return Json.mkObj [("idents", .arr ((allIdents (strip db [] par slot q)).map jIdent).toArray),
+      ("identsA", .arr ((allIdents (strip db names par slot q)).map jIdent).toArray)]
   else if op == "sem" then
     let db ← getName (← j.getObjVal? "db")
     let schL ← (← (← j.getObjVal? "sch").getArr?).toList.mapM fun e => do
@@ -181,8 +192,10 @@ def handle (line : String) : Except String Json := do
     let s ← getSel (← j.getObjVal? "sel")
     return Json.mkObj [
       ("fed", .arr ((resolveAll true db sch [] s).map jResC).toArray),
-      ("local", .arr ((resolveAll false db sch [] (stripSel db s)).map jResC).toArray),
-      ("ok", okSel db [] s)]
+      ("local", .arr ((resolveAll false db sch [] (stripSel db [] s)).map jResC).toArray),
+      ("ok", okSel db [] s),
+      ("localA", .arr ((resolveAll false db sch [] (stripSel db (aliasesOf s) s)).map jResC).toArray),
+      ("okA", okSel db (aliasesOf s) s)]
   else throw "op"
 
 partial def loop (h : IO.FS.Stream) (out : IO.FS.Stream) : IO Unit := do
